@@ -38,6 +38,10 @@ struct Msg {
     glue: bool,
     /// Before this message's write the peer: 0 = goes on, 1 = yields, n = sleeps (n-1) x 50 us.
     gap: u8,
+    /// Non-zero: the message carries this (unknown) type code and must be skipped by the receiver,
+    /// together with its fds.
+    #[serde(default)]
+    unknown_type: u8,
 }
 
 #[derive(Clone, Debug, Serialize, Deserialize, PartialEq)]
@@ -61,6 +65,9 @@ fn build_msg(i: usize, m: &Msg) -> (Vec<u8>, Vec<u64>) {
     if m.nfds > 0 {
         r = r.with(F_UNIX_FDS, Val::U32(m.nfds as u32));
     }
+    if m.unknown_type != 0 {
+        r.mtype = m.unknown_type;
+    }
     let tags = (0..m.nfds as u64).map(|k| 0xC14_0000 + (i as u64) * 16 + k).collect();
     (r.encode(), tags)
 }
@@ -78,7 +85,7 @@ impl Scenario for C14Scn {
         "C14"
     }
     fn rule(&self) -> &'static str {
-        "plan = role (p2p client / p2p server / pre-authenticated / bus client whose Hello reply shares a write with the first messages) x 1..6 generated messages (0..2 KiB bodies, 0..3 fds, both endiannesses) x read-split profile (whole, 1-byte, max-n, seeded per-read sizes, enumerated cut points) x delivery latency x handshake leftovers (messages and fds in the same write as the last handshake line) x optional oversize header; non-trivial = at least one message was split across reads or was carried in the handshake leftovers; distinct = distinct (plan, event log) pairs"
+        "plan = role (p2p client / p2p server / pre-authenticated / bus client whose Hello reply shares a write with the first messages) x 1..6 generated messages (0..2 KiB bodies, 0..3 fds, both endiannesses, some of an unknown type that must be skipped together with their fds) x read-split profile (whole, 1-byte, max-n, seeded per-read sizes, enumerated cut points) x delivery latency x handshake leftovers (messages and fds in the same write as the last handshake line) x optional oversize header; non-trivial = at least one message was split across reads or was carried in the handshake leftovers; distinct = distinct (plan, event log) pairs"
     }
     fn runs(&self, tier: Tier) -> u64 {
         match tier {
@@ -93,7 +100,7 @@ impl Scenario for C14Scn {
         vec!["OS socket (SimSocket)", "executor (seeded scheduler)", "clock", "peer (scripted raw peer with an independent marshaller)"]
     }
     fn assumptions(&self) -> Vec<&'static str> {
-        vec!["recvmsg semantics follow Linux unix stream sockets: fds arrive with the first byte of the segment they were sent with; a read may run from fd-less segments into one fd-bearing segment and stops after it"]
+        vec!["in a quarter of the runs a read may cross several fd-bearing segments (a transport more liberal than Linux); otherwise recvmsg semantics follow Linux unix stream sockets: fds arrive with the first byte of the segment they were sent with; a read may run from fd-less segments into one fd-bearing segment and stops after it"]
     }
 
     fn generate(&self, rng: &mut Rng, idx: u64, tier: Tier) -> (SchedCfg, Value) {
@@ -115,10 +122,12 @@ impl Scenario for C14Scn {
                 fill: rng.below(256) as u8,
                 glue: rng.chance(1, 2),
                 gap: if rng.chance(1, 2) { 0 } else { rng.range(1, 4) as u8 },
+                unknown_type: if rng.chance(1, 8) { rng.range(5, 255) as u8 } else { 0 },
             });
         }
         let n_tail = if role == Role::Authed { 0 } else { rng.range(0, n as u64) as usize };
         let mut link = gen_read_cfg(rng);
+        link.merge_fd_segments = rng.chance(1, 4);
         // systematic part: explicit cut points over the whole inbound stream
         let systematic = match tier {
             Tier::Quick => idx % 4 == 0,
@@ -171,6 +180,11 @@ impl Scenario for C14Scn {
                 q.msgs[i].gap = 0;
                 out.push(j(&q));
             }
+            if m.unknown_type != 0 {
+                let mut q = p.clone();
+                q.msgs[i].unknown_type = 0;
+                out.push(j(&q));
+            }
         }
         if p.link != LinkCfg::default() {
             let mut q = p.clone();
@@ -198,9 +212,12 @@ impl Scenario for C14Scn {
         // messages
         let encoded: Vec<(Vec<u8>, Vec<u64>)> = p.msgs.iter().enumerate().map(|(i, m)| build_msg(i, m)).collect();
         let fds_ok = p.can_fd;
+        // messages of unknown type are skipped (C13), everything else is yielded
         let expected: Vec<(Vec<u8>, Vec<u64>)> = encoded
             .iter()
-            .map(|(b, t)| (b.clone(), if fds_ok { t.clone() } else { vec![] }))
+            .zip(p.msgs.iter())
+            .filter(|(_, m)| m.unknown_type == 0)
+            .map(|((b, t), _)| (b.clone(), if fds_ok { t.clone() } else { vec![] }))
             .collect();
 
         // consumer (real zbus)
